@@ -9,3 +9,6 @@ import EcModel.Props.C20
 import EcModel.Props.C17
 import EcModel.Props.C18
 import EcModel.Props.C07
+import EcModel.Props.C12
+import EcModel.Props.C13
+import EcModel.Props.C14
